@@ -261,7 +261,7 @@ def eq_typed(ex, x, y, ty):
     while ty.startswith('&'):
         ty = ty[1:].strip(); x, y = ex.deref(x) if isinstance(ex.deref(x), Ref) else x, ex.deref(y) if isinstance(ex.deref(y), Ref) else y
         if ty.startswith('mut '): ty = ty[4:]
-    xv, yv = ex.deref(x), ex.deref(y)
+    xv, yv = ex.deref_ref(x), ex.deref_ref(y)
     it = inner_type(ty, 'Vec')
     if it is None and ty.startswith('[') and ty.endswith(']'): it = ty[1:-1].split(';')[0].strip() if mt.find_top(ty[1:-1], ';') != -1 else ty[1:-1]
     if it is not None:
@@ -353,6 +353,7 @@ def m_from(ex, f, a):
         t = ex.deref(v)
         if dstn.startswith('Option<'): return v if isinstance(t, (Agg, LazyEnum)) and getattr(t, 'ty', '') == 'Option' else some(v)
         if dstn == 'String' and isinstance(t, Str): return Str(t.chars)
+        if dstn.startswith('Cow<') and isinstance(t, Str): return Agg('Cow', 0, [Str(t.chars)])
         raise Unsupported('polymorphic conversion ' + f)
     if dstn in ('String',) :
         t = ex.deref(v)
